@@ -94,6 +94,24 @@ def evaluate(case):
                 ev.add("noop-coercion-changed-index", {"ops": ops, "diff": fp.fp_diff(fp.snapshot(data.index), fp.snapshot(res.index))[:4]})
         except Exception as e:  # noqa: BLE001
             ev.add("result-index-unreadable", repr(e)[:200])
+    # (0) what a parser computes is what comes back: the harness' parsers take absolute values
+    try:
+        import pandas as pd
+
+        parsed_cols = [c["name"] for c in spec.get("columns", []) if any(p_["kind"].startswith("abs") for p_ in c.get("parsers") or [])]
+        parsed_cols += [p_["column"] for p_ in spec.get("parsers") or [] if p_["kind"].startswith("frame_abs")]
+        if parsed_cols and isinstance(res, pd.DataFrame) and isinstance(data, pd.DataFrame) and not spec.get("drop_invalid_rows") \
+                and len(res) == len(data):
+            for cn in dict.fromkeys(parsed_cols):
+                if cn in res.columns and cn in data.columns and res.columns.tolist().count(cn) == 1 \
+                        and pd.api.types.is_numeric_dtype(res[cn]) and pd.api.types.is_numeric_dtype(data[cn]):
+                    got = res[cn].astype("float64").to_numpy(na_value=float("nan"))
+                    want = data[cn].astype("float64").abs().to_numpy(na_value=float("nan"))
+                    if not ((got == want) | ((got != got) & (want != want))).all():
+                        ev.add("parser-result-not-in-returned-object", {"column": str(cn), "ops": ops, "entry": case.get("entry", "schema"),
+                                                                        "returned": [repr(x) for x in got[:5]], "parsed": [repr(x) for x in want[:5]]})
+    except Exception as e:  # noqa: BLE001 - comparison not possible (e.g. coerced to a non-numeric type): not scored
+        ev.labels.append("parser-oracle-not-applicable")
     stripped = sp.strip_parsers(spec)
     # (1a) pandera itself, parsing off
     s2 = sp.pandas_schema(stripped)
@@ -249,10 +267,13 @@ def _kf_add_missing_regex_order(family, case, disc):
 def strat_pandas(draw):
     case = draw(gen.parser_case())
     spec = case["spec"]
-    if spec.get("kind", "dataframe") == "dataframe" and not spec.get("drop_invalid_rows") and draw(st.integers(0, 5)) == 0:
+    col_parsers = any(c.get("parsers") for c in spec.get("columns", []))
+    if spec.get("kind", "dataframe") == "dataframe" and not spec.get("drop_invalid_rows") \
+            and draw(st.integers(0, 5)) <= (2 if col_parsers else 0):
         names = [t["name"] for t in case["table"]["columns"]]
         cols = [i for i, c in enumerate(spec["columns"]) if not c.get("regex") and c["name"] in names and names.count(c["name"]) == 1]
-        hot = [i for i in cols if spec["columns"][i]["name"] in case.get("touched", [])]
+        hot = [i for i in cols if spec["columns"][i].get("parsers")] or \
+            [i for i in cols if spec["columns"][i]["name"] in case.get("touched", [])]
         if cols:
             case = dict(case, entry="column", entry_col=draw(st.sampled_from(hot or cols)))
     return case
